@@ -155,6 +155,9 @@ func (p *jsonPathParser) setNodeChain() {
 		for _, next := range p.params[1:] {
 			if funcNode, ok := next.(*syntaxAggregateFunction); ok {
 				funcNode.param = root
+				// The parameter path decides by its own value-group flag whether the
+				// function receives the list of matches or the single matched array.
+				p.updateValueGroup(funcNode.param)
 				p.updateAccessorMode(funcNode.param, false)
 				root = funcNode
 				last = root
@@ -205,7 +208,10 @@ func (p *jsonPathParser) setConnectedText(targetNode syntaxNode, postfix ...stri
 }
 
 func (p *jsonPathParser) updateRootValueGroup() {
-	rootNode := p.params[0].(syntaxNode)
+	p.updateValueGroup(p.params[0].(syntaxNode))
+}
+
+func (p *jsonPathParser) updateValueGroup(rootNode syntaxNode) {
 	checkNode := rootNode
 	for checkNode != nil {
 		if checkNode.isValueGroup() {
